@@ -37,3 +37,6 @@ pub fn coq_list(items: &[String]) -> String { format!("[{}]", items.join("; ")) 
 pub fn env_u64(name: &str, default: u64) -> u64 {
     std::env::var(name).ok().and_then(|s| s.parse().ok()).unwrap_or(default)
 }
+pub mod memdb;
+pub mod prog;
+pub mod hist;
